@@ -211,8 +211,8 @@ func observeC09(r *astRun) c09Obs {
 			}
 			o.Oneofs = append(o.Oneofs, rec)
 		case pgs.Message:
-			rec := msgPres{Ref: en.ref, MapEntry: x.IsMapEntry(), OneofFields: refsOfFields(r, x.OneOfFields()), NonOneof: refsOfFields(r, x.NonOneOfFields()),
-				SynthFields: refsOfFields(r, x.SyntheticOneOfFields()), RealOneofs: []ref{}}
+			rec := msgPres{Ref: en.ref, MapEntry: x.IsMapEntry(), OneofFields: sortRefs(refsOfFields(r, x.OneOfFields())), NonOneof: refsOfFields(r, x.NonOneOfFields()),
+				SynthFields: sortRefs(refsOfFields(r, x.SyntheticOneOfFields())), RealOneofs: []ref{}}
 			for _, ro := range x.RealOneOfs() {
 				rec.RealOneofs = append(rec.RealOneofs, r.refOf(ro))
 			}
